@@ -188,6 +188,26 @@ func c03fail(p *Program, r *Report, rule string) {
 				return true, ""
 			})
 	}
+	if fn := p.Func("Conn.readFramePayload"); fn != nil {
+		p.forAllPaths(r, rule+".payload", fn, "a transport failure in the middle of a payload closes the transport", Opts{},
+			"when io.ReadFull of a frame payload fails for a reason other than the connection being closed or the context ending, Conn.readFramePayload closes the transport before returning the error (blocked calls such as a pending Ping return)", func(pa *Path) (bool, string) {
+				if pa.End != "return" || retErr(pa) != "nonnil" {
+					return true, ""
+				}
+				ok, known := decidedLike(pa, "call:io.ReadFull@@#1 == nil")
+				if !known || ok {
+					return true, ""
+				}
+				for _, e := range pa.Events {
+					if e.Kind == "select" && !e.Blocking && e.Case == -1 {
+						if len(pa.Calls("Conn.closeTransport")) == 0 && len(pa.Calls("Conn.close")) == 0 {
+							return false, "the payload error is passed on with the transport left open"
+						}
+					}
+				}
+				return true, ""
+			})
+	}
 	if fn := p.Func("Conn.readFrameHeader"); fn != nil {
 		p.forAllPaths(r, rule+".header", fn, "an unreadable or invalid header closes the transport", Opts{},
 			"when readFrameHeader fails for a reason other than the connection being closed or the context ending (transport error, length with the top bit set), Conn.readFrameHeader closes the transport before returning the error", func(pa *Path) (bool, string) {
